@@ -61,6 +61,7 @@ class Built(object):
         self.services = []
         self.methods = {}    # method name -> method spec
         self.rev = {}
+        self.method_evmgrs = {}
 
     # ---- field info from the spec (reference side, independent of spyne introspection)
     def flat_fields(self, cname):
@@ -218,6 +219,11 @@ def build(program):
                 kw['_out_header'] = tuple(hs)
             if m.get('throws'):
                 kw['_throws'] = [b.faults[x] for x in m['throws']]
+            if m.get('evmgr'):
+                from spyne.evmgr import EventManager
+                em = EventManager(None)
+                b.method_evmgrs[m.get('key', m['n'])] = em
+                kw['_evmgr'] = em
             anames = [a[0] for a in m.get('args', [])]
             atypes = [T(a[1]) for a in m.get('args', [])]
             key = m.get('key', m['n'])
